@@ -88,6 +88,8 @@ type IPTables struct {
 	sets   *IPSets
 	log    []Event
 	inject map[string]*injection
+	calls  int            // calls seen by injected() since ResetCalls
+	failAt map[int]string // call index -> message
 }
 
 var _ utiliptables.Interface = &IPTables{}
@@ -123,7 +125,37 @@ func (f *IPTables) FailNext(op string, n int, msg string) {
 	f.inject[op] = &injection{n, msg}
 }
 
+// FailCall makes the k-th call from now on (0-based, counting EnsureChain, FlushChain, DeleteChain, EnsureRule,
+// DeleteRule, ListRule, SaveInto, Restore, RestoreAll in the order they arrive) fail with msg, without effect.
+// It resets the call counter.
+func (f *IPTables) FailCall(k int, msg string) {
+	f.mu.Lock()
+	defer f.mu.Unlock()
+	f.calls = 0
+	f.failAt = map[int]string{k: msg}
+}
+
+// ResetCalls clears the call counter and any FailCall plan; Calls returns the counter.
+func (f *IPTables) ResetCalls() {
+	f.mu.Lock()
+	defer f.mu.Unlock()
+	f.calls = 0
+	f.failAt = nil
+}
+
+func (f *IPTables) Calls() int {
+	f.mu.Lock()
+	defer f.mu.Unlock()
+	return f.calls
+}
+
 func (f *IPTables) injected(op string) error {
+	k := f.calls
+	f.calls++
+	if msg, ok := f.failAt[k]; ok {
+		delete(f.failAt, k)
+		return &Error{ErrInjected, msg}
+	}
 	if in := f.inject[op]; in != nil && in.n > 0 {
 		in.n--
 		return &Error{ErrInjected, in.msg}
